@@ -20,6 +20,20 @@ fn buffers(tier: Tier) -> Vec<(String, Vec<u8>, usize)> {
     if tier == Tier::Thorough {
         lens.extend([((1 << 25) + 4, 2), ((1 << 26), 1)]);
     }
+    // long ASCII strings whose LAST few bytes are a multi-byte character, an incomplete one or an invalid byte
+    // (lengths around 2^7, 2^8, 2^10: a fast path for long ASCII text that looks at whole groups only)
+    for base in [118usize, 120, 121, 124, 127, 128, 129, 135, 136, 250, 255, 256, 1020, 1024] {
+        for (tn, tail) in [("e-acute", &[0xC3u8, 0xA9][..]), ("euro", &[0xE2, 0x82, 0xAC][..]), ("invalid", &[0xFF][..]), ("incomplete", &[0xC3][..]), ("e-acute+a", &[0xC3, 0xA9, 0x61][..])] {
+            let mut b = text(base);
+            b.extend(tail);
+            b.push(0);
+            while b.len() % 4 != 0 {
+                b.push(0);
+            }
+            b.extend([1u8, 0, 0, 0]);
+            out.push((format!("ASCII x{} + {} tail", base, tn), b, 2));
+        }
+    }
     for (n, d) in lens {
         let mut b = text(n);
         b.push(0);
